@@ -14,7 +14,7 @@ RULE = ("fixed inputs (pinned unit-test vectors, boundary probes, the F8 witness
         "doubly quoted values, trailing ';', text after an empty segment), lists whose mandatory names a missing key / itself / "
         "a key twice, lists with a repeated key, and a malformed stream (a broken or unusual segment inside a valid list: "
         "unknown or upper-case key, missing '=', empty value, bad port syntax/range, bad addresses, bad base64, alpn ids of "
-        "length 0/256/258, random delimiter soup); each input is evaluated twice (wire, rt); "
+        "length 0/256/258, random delimiter soup); each accepted input is evaluated twice (kinds wire and rt), a rejected one once; "
         "non-trivial = distinct input text per kind")
 TRUSTED_BASE = [
     "net.ParseIP, net.IP.String, base64.StdEncoding Decode/Encode enter the model as oracles (theorems hold for every oracle "
